@@ -50,6 +50,7 @@ type DAG struct {
 	Epochs   []*EpochDAG
 	FP       uint64
 	Forks    int
+	Stray    int // fork events nobody builds on
 	Rejected *Ev
 }
 
@@ -407,7 +408,13 @@ func Generate(r *rand.Rand, cfg *GenCfg) (*DAG, *Inst, error) {
 					}
 				}
 			}
-			tips[c] = append(tips[c], e)
+			if forked && r.Intn(3) == 0 {
+				// a stray twin: nobody (not even its creator) ever builds on it
+				own[c] = own[c][:len(own[c])-1]
+				d.Stray++
+			} else {
+				tips[c] = append(tips[c], e)
+			}
 			if g.Epoch() != plan.Epoch {
 				ed.Sealed = true
 				break
